@@ -8,7 +8,8 @@ TAG=$$
 WT=/tmp/swt-repo-$TAG; VC=/tmp/swt-verif-$TAG
 git -C /repo worktree add --detach $WT HEAD >/dev/null 2>&1 || exit 9
 (cd $WT && git apply $P) || { echo "patch does not apply"; git -C /repo worktree remove --force $WT; exit 9; }
-mkdir -p $VC; rsync -a --exclude .git --exclude .work --exclude replays /verif/ $VC/   # compiled .vo files come along (same mtimes): only what the change touches is rebuilt
+SRC=/verif; [ -d /tmp/verif-snap ] && SRC=/tmp/verif-snap   # a consistent snapshot, if one was taken (the working tree may be mid-edit)
+mkdir -p $VC; rsync -a --exclude .git --exclude .work --exclude replays $SRC/ $VC/   # compiled .vo files come along (same mtimes): only what the change touches is rebuilt
 sed -i "s|=> /repo|=> $WT|" $VC/harness/go.mod
 for id in "$@"; do
   VERIF_REPO=$WT /usr/bin/time -f "  ($id %es)" $VC/check $id $T 2>&1 | grep -E "VIOLATION|KNOWN|\(C|rror" | cut -c1-200
